@@ -40,7 +40,7 @@ def main():
         import re
         demo_cmd = re.sub(r"git apply [^&;]*(&&|;)\s*", "", demo_cmd)
         demo_cmd = re.sub(r"cd /tmp/wt/%s\s*(&&|;)\s*" % pid, "", demo_cmd)
-        mm = re.search(r"(cargo test[^&;|]*)", demo_cmd)
+        mm = re.search(r"(cargo test[^&;|(#`]*)", demo_cmd)
         if mm:
             demo_cmd = mm.group(1).strip()
         sh("git checkout -- . && git clean -fdq -e _out -e Cargo.lock -e target", W)
